@@ -167,7 +167,8 @@ Counter::getPreviouslyCounted(
 
         // Try to see if the given node falls after the counted node...
         // if it does, don't keep searching backwards.
-        if(executionContext.isNodeAfter(*countedNode, *node))
+        // (isNodeAfter(a, b) is true when a comes after b.)
+        if(executionContext.isNodeAfter(*node, *countedNode))
         {
             break;
         }
